@@ -481,7 +481,15 @@ def run_one(run_seed, i, tier):
 
 
 def replay(obj):
+    if obj.get("full_run"):
+        # every subset of the run, in the order the run had them
+        return execute_case(obj["case"], 0xC16, obj.get("tier", "quick"), tag="r")
     return execute_case(obj["case"], 0xC16, "quick", only=(obj["subset"], obj["kinds"], obj["mode"]), tag="r")
+
+
+def full_replay(rep):
+    return {"property": ID, "case": rep["case"], "full_run": True, "tier": rep.get("found", {}).get("tier", "quick"),
+            "expect": rep.get("expect")}
 
 
 def shrink_candidates(obj):
